@@ -35,7 +35,7 @@ CLAUSES = ["type", "array-values", "dtype", "axes-count", "ensemble-axes-metadat
 ASSUMPTIONS = ["metadata is restricted to what JSON carries: str keys; None/bool/int/float (incl. nan, inf, -0.0)/str/list/tuple/dict values; numpy scalars and arrays are compared after conversion to Python",
                "from_zarr always returns lazy objects: laziness itself is not compared"]
 QUICK = dict(n=300, time=35)
-THOROUGH = dict(n=12000, time=240, shards=16)
+THOROUGH = dict(n=61860, time=480, shards=16)
 
 
 # ------------------------------------------------------------------------------------------- generation
